@@ -491,6 +491,30 @@ def known_ids(prop):
     return ids
 
 
+def run_cases_fresh(ctx, cases, width=16):
+    """corecheck.run_cases(render=True, costs=True) with ONE harness process per case: the spelling of an
+    affiliate's name (in the Affiliate column and inside error messages) is that of its first occurrence in
+    the process, so the implementation's render model must come from a process that has seen this case only,
+    like the acb process it is compared with"""
+    import hashlib
+    from common import run_harness
+    hc = [{"files": c.get("files") or corecheck.split_files(c["rows"]), "init": gen.init_specs(c),
+           "render": True, "costs": True} for c in cases]
+    impl_raw = []
+    for i in range(0, len(hc), width):
+        chunk = hc[i:i + width]
+        impl_raw += run_harness(ctx["exe"], "core", chunk, nproc=len(chunk))
+    enc = [core.to_ints(c, 1) for c in cases]
+    dec_raw = run_model([e[0] for e in enc])
+    out = []
+    for k, c in enumerate(cases):
+        e = enc[k]
+        out.append({"case": c, "hc": hc[k], "st": e[1], "at": e[2], "raw": impl_raw[k],
+                    "impl": core.parse_impl(impl_raw[k], e[1], e[2]), "dec": core.parse_model(dec_raw[k]),
+                    "hash": hashlib.sha1(("\n".join(hc[k]["files"]) + repr(hc[k]["init"])).encode()).hexdigest()})
+    return out
+
+
 # ------------------------------------------------------------------ the pass
 def check_pass(res, ctx, prop, rng):
     """prop: 'C04' (a missing error message is a failing input) or 'C06' (a stale / extra record
@@ -532,7 +556,7 @@ def check_pass(res, ctx, prop, rng):
             cases.append(smaller(rng, cases[k]))
     coll = len(cases)
     cases.append(collision_case())
-    rs = corecheck.run_cases(ctx, cases, render=True, costs=True)
+    rs = run_cases_fresh(ctx, cases)
     small_of = set(pairs.values())
 
     jobs = []        # (case index, full, costs)
@@ -734,7 +758,7 @@ def check_pass(res, ctx, prop, rng):
         "error_messages_checked_per_mode": stats["messages"], "closing_lines_checked": stats["closing-lines"],
         "reused_directory": {"files_rewritten": stats["files-rewritten"], "files_left_over": stats["files-left-over"]},
         "pipeline_tie": {k.split(":", 1)[1]: v for k, v in sorted(stats.items()) if k.startswith("pipeline:")},
-        "other": {k: v for k, v in sorted(stats.items()) if k.startswith("skipped:") or k.startswith("known:") or k == "reserved-name-securities"},
+        "other": {k: v for k, v in sorted(stats.items()) if k.startswith("skipped:") or k.startswith("known:") or k in ("reserved-name-securities", "affiliate-spelling-differs-by-case")},
         "rule": "the real acb binary in text mode and with -d (fresh directory, directory used by an earlier larger run, directory in which one "
                 "file name cannot be created), with and without --print-full-values / --total-costs, against the extracted model of the writers: "
                 "set of files, every record of every file field by field (files parsed with Python's csv module), exit code, standard output line by "
